@@ -1,6 +1,6 @@
 SPECIFICATION Spec
 CONSTANT Deviations = {}
-CONSTANT MaxLenQ = 4
+CONSTANT MaxLenQ = 3
 CONSTANT MaxLenT = 4
 CONSTANT MaxLenMixed = 3
 CONSTANT MaxLenCustom = 3
